@@ -8,6 +8,7 @@ import (
 	"fmt"
 	"io"
 	"math/rand/v2"
+	"net"
 	"sync"
 	"sync/atomic"
 	"time"
@@ -17,6 +18,7 @@ import (
 	"github.com/buchgr/bazel-remote/v2/cache"
 	"github.com/buchgr/bazel-remote/v2/cache/disk"
 	pb "github.com/buchgr/bazel-remote/v2/genproto/build/bazel/remote/execution/v2"
+	bspb "google.golang.org/genproto/googleapis/bytestream"
 	"google.golang.org/protobuf/proto"
 )
 
@@ -104,6 +106,10 @@ func (w *acctWorld) step(rng *rand.Rand, concurrent bool) {
 	it := w.cas[rng.IntN(len(w.cas))]
 	size := int64(len(it.content))
 	outcome := "ok"
+	if w.srv != nil && w.srv.BS != nil && rng.IntN(2) == 0 {
+		w.serverStep(rng, it)
+		return
+	}
 	track := func(sz int64, f func()) {
 		w.started.Add(sz)
 		f()
@@ -276,6 +282,119 @@ func (w *acctWorld) step(rng *rand.Rand, concurrent bool) {
 	w.log("%s %s size=%d -> %s", op, it.hash[:8], size, outcome)
 }
 
+// serverStep drives the same cache through the HTTP and gRPC front ends,
+// including uploads aborted part-way by the client.
+func (w *acctWorld) serverStep(rng *rand.Rand, it acctItem) {
+	size := int64(len(it.content))
+	ops := []string{"bs-ok", "bs-abort", "bs-toomuch", "bs-rename", "bs-zstd-garbage", "http-put", "http-put-badhash", "http-put-abort", "batch-update"}
+	op := ops[rng.IntN(len(ops))]
+	outcome := "ok"
+	uuid := fmt.Sprintf("%08x-0000-4000-8000-%012x", rng.Uint32(), rng.Uint64()&0xffffffffffff)
+	w.started.Add(size)
+	aborted := false
+	defer func() {
+		if !aborted { // an aborted call may still hold its reservation server-side after the client returned
+			w.finished.Add(size)
+		}
+	}()
+	switch op {
+	case "bs-ok":
+		ctx, cancel := lib.Ctx()
+		_, err := w.srv.BSWrite(ctx, lib.ResUpload(uuid, it.hash, size), it.content, 1+rng.IntN(64*lib.KiB))
+		cancel()
+		if err != nil {
+			outcome = "err"
+		}
+	case "bs-abort":
+		// send part of the payload, then cancel the call
+		aborted = true
+		ctx, cancel := context.WithCancel(context.Background())
+		before := w.srv.GRPCStarted.Load()
+		st, err := w.srv.BS.Write(ctx)
+		if err == nil {
+			cut := rng.IntN(len(it.content) + 1)
+			_ = st.Send(&bspb.WriteRequest{ResourceName: lib.ResUpload(uuid, it.hash, size), Data: it.content[:cut]})
+			lib.WaitCounterAbove(&w.srv.GRPCStarted, before, 5*time.Second)
+			if rng.IntN(2) == 0 {
+				time.Sleep(time.Duration(rng.IntN(2000)) * time.Microsecond)
+			}
+		}
+		cancel()
+		outcome = "aborted"
+	case "bs-toomuch":
+		ctx, cancel := lib.Ctx()
+		long := append(append([]byte(nil), it.content...), 9, 9, 9)
+		_, err := w.srv.BSWrite(ctx, lib.ResUpload(uuid, it.hash, size), long, 1+rng.IntN(64*lib.KiB))
+		cancel()
+		if err != nil {
+			outcome = "err"
+		}
+	case "bs-rename":
+		ctx, cancel := lib.Ctx()
+		half := len(it.content) / 2
+		_, err := w.srv.BSWriteMsgs(ctx, []*bspb.WriteRequest{
+			{ResourceName: lib.ResUpload(uuid, it.hash, size), Data: it.content[:half]},
+			{ResourceName: lib.ResUpload(uuid, lib.RandHash(rng), size), Data: it.content[half:], FinishWrite: true},
+		})
+		cancel()
+		if err != nil {
+			outcome = "err"
+		}
+	case "bs-zstd-garbage":
+		ctx, cancel := lib.Ctx()
+		garbage := make([]byte, 1+rng.IntN(20000))
+		for i := range garbage {
+			garbage[i] = byte(rng.Uint32())
+		}
+		_, err := w.srv.BSWrite(ctx, lib.ResUploadZstd(uuid, it.hash, size), garbage, 8192)
+		cancel()
+		if err != nil {
+			outcome = "err"
+		}
+	case "http-put", "http-put-badhash":
+		body := it.content
+		if op == "http-put-badhash" {
+			body = append([]byte(nil), body...)
+			body[rng.IntN(len(body))] ^= 1
+		}
+		res := w.srv.HTTPPut("/cas/"+it.hash, body, nil)
+		if res.Status != 200 {
+			outcome = fmt.Sprint(res.Status)
+		}
+	case "http-put-abort":
+		// raw socket: announce Content-Length, send part of the body, close
+		aborted = true
+		if conn, err := net.Dial("tcp", w.srv.HTTPURL[len("http://"):]); err == nil {
+			before := w.srv.HTTPStarted.Load()
+			cut := rng.IntN(len(it.content))
+			fmt.Fprintf(conn, "PUT /cas/%s HTTP/1.1\r\nHost: x\r\nContent-Length: %d\r\n\r\n", it.hash, size)
+			_, _ = conn.Write(it.content[:cut])
+			lib.WaitCounterAbove(&w.srv.HTTPStarted, before, 5*time.Second)
+			_ = conn.Close()
+		}
+		outcome = "aborted"
+	case "batch-update":
+		ctx, cancel := lib.Ctx()
+		_, err := w.srv.CAS.BatchUpdateBlobs(ctx, &pb.BatchUpdateBlobsRequest{Requests: []*pb.BatchUpdateBlobsRequest_Request{{Digest: &pb.Digest{Hash: it.hash, SizeBytes: size}, Data: it.content}}})
+		cancel()
+		if err != nil {
+			outcome = "err"
+		}
+	}
+	w.r.Count("op." + op + "." + outcome)
+	w.log("%s %s size=%d -> %s", op, it.hash[:8], size, outcome)
+}
+
+// settle waits (bounded, persistent-state oracle) until the server has
+// finished handlers whose clients already gave up: reservations must return
+// to zero. Returns false when they never do.
+func (w *acctWorld) settle() string {
+	if w.srv == nil {
+		return "ok"
+	}
+	return w.srv.Settle(20 * time.Second)
+}
+
 func (w *acctWorld) detail(extra any) map[string]any {
 	w.histMu.Lock()
 	defer w.histMu.Unlock()
@@ -284,6 +403,21 @@ func (w *acctWorld) detail(extra any) map[string]any {
 
 // checkStep evaluates both monitors at a quiescent point.
 func (w *acctWorld) checkQuiescent(phase string) {
+	switch w.settle() {
+	case "reserved":
+		if w.which == "C03" {
+			_, reserved, _, _ := w.c.Stats()
+			w.r.Violation("C03:"+phase+":reserved-never-released", fmt.Sprintf("reserved bytes stay at %d although no handler is running (20 s after every client call returned or was cancelled)", reserved), w.detail(nil))
+		}
+		return
+	case "busy":
+		w.r.Violation(w.which+":"+phase+":handler-never-returned", "a server handler is still running 20 s after every client call returned or was cancelled", w.detail(nil))
+		return
+	}
+	if w.srv != nil {
+		// aborted HTTP uploads: give handlers whose reservation is already gone a moment to remove their temp file
+		time.Sleep(2 * time.Millisecond)
+	}
 	snap := lib.Snapshot(w.c)
 	w.r.Count("snapshots")
 	w.r.Distinct(w.storage, len(snap.Entries), snap.CurrentSize, snap.ReservedSize)
@@ -368,12 +502,12 @@ func runAcctEngine(r *lib.Run, which string) {
 		concurrent := i >= nSeq
 		storage := []string{"zstd", "uncompressed"}[rng.IntN(2)]
 		withProxy := rng.IntN(5) == 0
-		viaServer := rng.IntN(8) == 0
+		viaServer := rng.IntN(5) == 0
 		maxes := []int64{8 * lib.KiB, 12 * lib.KiB, 16 * lib.KiB, 40 * lib.KiB, 100 * lib.KiB, 256 * lib.KiB, lib.MiB, 4 * lib.MiB}
 		max := maxes[rng.IntN(len(maxes))]
 		w := &acctWorld{r: r, which: which, rng: rng, max: max, storage: storage, caseID: fmt.Sprintf("%s-s%d-h%d", which, r.Seed, i)}
 		w.ownDir = pool.Get()
-		opts := lib.ServerOpts{Dir: w.ownDir, MaxSize: max, Storage: storage, ZstdImpl: []string{"go", "cgo"}[rng.IntN(2)], NoGRPC: true}
+		opts := lib.ServerOpts{Dir: w.ownDir, MaxSize: max, Storage: storage, ZstdImpl: []string{"go", "cgo"}[rng.IntN(2)], NoGRPC: !viaServer}
 		if withProxy {
 			w.px = lib.NewFakeProxy(storage == "zstd")
 			opts.Proxy = w.px
@@ -445,7 +579,8 @@ func runAcctEngine(r *lib.Run, which string) {
 							r.Count("sampler.snapshots_with_reservation")
 						}
 						bad := lib.CheckAcct(snap)
-						if snap.ReservedSize > s-f {
+						// (only for synchronous disk-API histories: a server handler may legitimately outlive its client call for a moment)
+						if w.srv == nil && snap.ReservedSize > s-f {
 							bad = append(bad, fmt.Sprintf("reservedSize %d exceeds the declared sizes of all operations open at that instant (<= %d)", snap.ReservedSize, s-f))
 						}
 						if len(bad) > 0 {
